@@ -692,7 +692,9 @@ register("C01", run_C01, module="Robotools.Props.C01",
 register("C02", run_C02, module="Robotools.Props.C02",
          theorems=["Robotools.C02." + t for t in ("addStep_ok_iff", "addStep_vol", "addStep_err", "removeStep_ok_iff", "removeStep_vol",
                    "removeStep_err", "addStep_valid", "removeStep_valid", "micro_valid", "exec_decompose", "exec_append", "exec_valid",
-                   "compile_nonneg", "step_limits", "world_limits", "mk_valid", "trough_mk_valid")], rule="add/remove histories and worklist programs with boundary-biased volumes; rejected operations are followed by further operations")
+                   "compile_nonneg", "step_limits", "world_limits", "mk_valid", "trough_mk_valid")]
+                  + ["Robotools.GenFns." + t for t in ("all_translated", "gen_add_step_spec", "gen_remove_step_spec", "gen_addStep_ok", "gen_removeStep_ok")],
+         extra_modules=["Robotools.Proofs.GenFns"], rule="add/remove histories and worklist programs with boundary-biased volumes; rejected operations are followed by further operations")
 register("C03", run_C03, module="Robotools.Props.C03",
          theorems=["Robotools.C03." + t for t in ("step_safe", "step_cfg", "step_wf", "abort_safe", "run_safe", "steps_bounded", "prepareAD_oversize", "pair_mem_plan_nosplit", "no_split_rejects")]
                   + ["Robotools.RP." + t for t in ("safe_append", "safe_rm_emit", "safe_ad_emit", "safe_compileTransfer", "compile_safe", "within_compile", "recs_within_exec")],
@@ -701,11 +703,12 @@ register("C04", run_C04, module="Robotools.Props.C04",
          theorems=["Robotools.C04." + t for t in ("micro_shape", "executed_prefix", "executed_all_of_ok", "exec_ledger", "exec_frame",
                    "compileRemove_shape", "compileAdd_shape", "compileAdd_rejects_shape", "compileRemove_rejects_shape", "scalar_broadcast",
                    "flattenF_mat_get", "flattenF_mat_length", "flattenF_pairs", "trough_alias", "plate_index", "repeat_charged")], rule="direct add/remove histories over plates and troughs with scalar/list/2-D arguments and repeats")
-register("C05", run_C05, module="Robotools.Props.C05History",
+register("C05", run_C05, module="Robotools.Props.C05History", extra_modules=["Robotools.Proofs.GenFns"],
          theorems=["Robotools.C05." + t for t in ("combine_zero", "combine_spec", "wellComp_spec", "addStep_amount", "addStep_compValid",
                    "removeStep_frac", "removeStep_amount", "addStep_fracSum", "frac_range", "pair_conserves", "pair_same_well",
                    "history_normalised", "history_ideal_mixture", "constructed_good")]
                   + ["Robotools.CtorGood.mk_good", "Robotools.CtorGood.trough_mk_good"]
+                  + ["Robotools.GenFns.all_translated", "Robotools.GenFns.gen_combine_composition_ok"]
                   + ["Robotools.Amt." + t for t in ("mixed_removeStep", "mixed_addStep", "take_amt", "put_amt", "ablock_pair", "compile_ablock")], rule="transfer/distribute/dispense histories with shared component names; exact amounts ledger")
 register("C06", run_C06, module="Robotools.Props.C06",
          theorems=["Robotools.C06.partition_spec", "Robotools.C06.partition_zero", "Robotools.C06.multi_disp_fits",
@@ -885,10 +888,12 @@ def run_C18(ctx):
 
 
 register("C19", run_C19, module="Robotools.Props.C19",
-         theorems=["Robotools.C19." + t for t in ("rejects_empty", "length_eq", "get_mod", "zero", "arr_colmajor")], rule="(n, wells) pairs: n in {0,1,len-1,len,len+1,k*len,random,negative,non-int}; wells as list, 1-D and 2-D arrays of length 1..26")
+         theorems=["Robotools.C19." + t for t in ("rejects_empty", "length_eq", "get_mod", "zero", "arr_colmajor")]
+                  + ["Robotools.GenFns." + t for t in ("all_translated", "gen_get_trough_wells_ok", "gen_get_trough_wells_neg")], extra_modules=["Robotools.Proofs.GenFns"], rule="(n, wells) pairs: n in {0,1,len-1,len,len+1,k*len,random,negative,non-int}; wells as list, 1-D and 2-D arrays of length 1..26")
 register("C18", run_C18, module="Robotools.Props.C18",
          theorems=["Robotools.C18." + t for t in ("perm", "single_column", "groups_nonempty", "groups_sorted", "group_keys_complete",
-                                                  "rows_sorted", "auto_rule", "explicit_respected", "invalid_mode_rejected")], rule="triple lists of length 0..40 with repeated wells and equal keys, rows A..Z, columns 1..99, both modes and invalid modes; all optimize_partition_by combinations of 4 labware declarations (Trough, Labware(virtual_rows=..), plate, strip) x 6 modes")
+                                                  "rows_sorted", "auto_rule", "explicit_respected", "invalid_mode_rejected")]
+                  + ["Robotools.GenFns.all_translated", "Robotools.GenFns.gen_optimize_partition_by_ok"], extra_modules=["Robotools.Proofs.GenFns"], rule="triple lists of length 0..40 with repeated wells and equal keys, rows A..Z, columns 1..99, both modes and invalid modes; all optimize_partition_by combinations of 4 labware declarations (Trough, Labware(virtual_rows=..), plate, strip) x 6 modes")
 
 
 # ------------------------------------------------------------------ C10 tip masks
